@@ -30,11 +30,34 @@ def build(bdir, extra=""):
     return r.returncode == 0, r.stdout[-400:] + r.stderr[-400:]
 
 
-def run_demo(bdir, tag):
+def demo_cflags():
+    """a demonstration that depends on how CLIENT code is compiled says so: a line `DEMO_CFLAGS: -O2`, or a `cc -O<n>` in the
+    compile command quoted at its top"""
+    try:
+        t = open(os.path.join(seed, "demo.c")).read()[:3000]
+    except OSError:
+        return ""
+    m_ = re.search(r"DEMO_CFLAGS:\s*(.*)", t)
+    if m_:
+        # only real compiler options count ("(none needed ...)" is prose)
+        return " ".join(w for w in m_.group(1).strip().split() if re.fullmatch(r"-[A-Za-z][\w=,+-]*", w))
+    m_ = re.search(r"\bcc\s+(-O[0-3s])\b", t)
+    return m_.group(1) if m_ else ""
+
+
+def compile_demo(bdir, tag):
+    """compiled against the headers of the tree as it is right now (a seed may live in a header)"""
     exe = "/tmp/seed_demo_%s" % tag
-    c = sh("cc -w -I %s/src -I %s -I %s/src %s/demo.c %s/src/libcbor.a -lm -o %s" % (WT, bdir, bdir, seed, bdir, exe))
+    c = sh("cc -w %s -I %s/src -I %s -I %s/src %s/demo.c %s/src/libcbor.a -lm -o %s" % (demo_cflags(), WT, bdir, bdir, seed, bdir, exe))
     if c.returncode != 0:
         return None, "demo does not compile: " + c.stderr[-300:]
+    return exe, ""
+
+
+def run_demo(exe_err):
+    exe, err = exe_err
+    if exe is None:
+        return None, err
     r = sh("timeout 120 %s" % exe)
     os.unlink(exe)
     return r.returncode, (r.stdout + r.stderr)[-600:]
@@ -62,9 +85,11 @@ m = re.search(r"(\d+)% tests passed, (\d+) tests failed out of (\d+)", t.stdout)
 meta["builds"] = ok1
 meta["pinned_suite_with_change"] = t.stdout.strip().splitlines()[-3:] if t.stdout else []
 meta["pinned_suite_passes"] = bool(m and m.group(2) == "0")
+exe1 = compile_demo(WT + "/_b1", "mod")
 sh("git -C %s checkout -q -- ." % WT)
-rc0, o0 = run_demo(WT + "/_b0", "orig")
-rc1, o1 = run_demo(WT + "/_b1", "mod")
+exe0 = compile_demo(WT + "/_b0", "orig")
+rc0, o0 = run_demo(exe0)
+rc1, o1 = run_demo(exe1)
 meta["demo_unmodified"] = dict(exit=rc0, tail=o0[-300:])
 meta["demo_modified"] = dict(exit=rc1, tail=o1[-300:])
 meta["demo_discriminates"] = rc0 == 0 and rc1 not in (0, None)
